@@ -222,6 +222,11 @@ func (s *dbStore) PruneState(from, to uint64) (uint64, uint64, uint64) {
 	// delete val infos
 	for valInfoHash := range valInfosCache {
 		if valInfo := rawdb.ReadConsensusValidatorsInfo(s.db, valInfoHash); valInfo != nil {
+			// Records are shared by every height at which the set has these members. One that was written again for
+			// a change taking effect at or above `to` (the set returned to an earlier membership) belongs to a kept state.
+			if valInfo.LastHeightChanged >= to {
+				continue
+			}
 			bz, _ := valInfo.Marshal()
 			if err := rawdb.DeleteConsensusValidatorsInfo(s.db, valInfoHash); err != nil {
 				log.Error("Failed to prune consensus validator info", "hash", valInfoHash)
